@@ -1,6 +1,7 @@
 package sortlim
 
 import (
+	"strings"
 	"encoding/json"
 	"fmt"
 	"math/big"
@@ -296,9 +297,48 @@ func orderBys(keys []Key) []core.OrderBy {
 
 // ---------------------------------------------------------------- independent specification comparator
 
-// specCmpVal: nil sorts first; values of one type by their natural order;
-// (values of different types are never generated in oracle-checked columns).
-// ok=false when the two values are of different non-nil types.
+// goTypeName is reflect.TypeOf(v).String() for the value kinds the engine generates.
+func goTypeName(v Val) string {
+	switch v.T {
+	case "bool":
+		return "bool"
+	case "int":
+		switch v.K {
+		case "byte":
+			return "uint8"
+		case "u16":
+			return "uint16"
+		case "u32":
+			return "uint32"
+		case "u64":
+			return "uint64"
+		case "uint":
+			return "uint"
+		case "i8":
+			return "int8"
+		case "i16":
+			return "int16"
+		case "i32":
+			return "int32"
+		case "i64":
+			return "int64"
+		}
+		return "int"
+	case "float":
+		if v.K == "f32" {
+			return "float32"
+		}
+		return "float64"
+	case "str":
+		return "string"
+	case "time":
+		return "time.Time"
+	}
+	return "[]uint8"
+}
+
+// specCmpVal: nil sorts first; values of different types by the name of their type; values of
+// one type by their natural order ("other" = []byte values are unordered among themselves).
 func specCmpVal(a, b Val) (c int, ok bool) {
 	if a.T == "nil" || b.T == "nil" {
 		switch {
@@ -311,7 +351,9 @@ func specCmpVal(a, b Val) (c int, ok bool) {
 		}
 	}
 	if a.T != b.T || a.K != b.K {
-		return 0, false
+		// values of different dynamic types: ordered by the name of the Go type (the documented
+		// behaviour of core.compare since /repo 8a9a760; before, the comparison panicked)
+		return strings.Compare(goTypeName(a), goTypeName(b)), true
 	}
 	switch a.T {
 	case "bool":
@@ -380,32 +422,9 @@ func specLess(keys []Key, a, b Row) bool {
 	return c < 0
 }
 
-// comparableRows: every ordered column holds nil or one dynamic type other than Go uint
-// (the model's Comparable predicate).
-func comparableRows(keys []Key, rows []Row) bool {
-	for _, k := range keys {
-		if k.F == "_time" {
-			continue
-		}
-		ty := ""
-		for _, r := range rows {
-			v := r.get(k.F)
-			if v.T == "nil" {
-				continue
-			}
-			t := v.T + "/" + v.K
-			if t == "int/uint" {
-				return false
-			}
-			if ty == "" {
-				ty = t
-			} else if ty != t {
-				return false
-			}
-		}
-	}
-	return true
-}
+// comparableRows: since /repo 8a9a760 every list of rows is comparable (the model's
+// `comparable_always`); kept as a function so that the oracle's call sites read as before.
+func comparableRows(keys []Key, rows []Row) bool { return true }
 
 // projection of a row on the key list (what the order can see)
 func proj(keys []Key, r Row) string {
